@@ -76,7 +76,7 @@ def main():
                      'kind_free_text': 'deterministic simulation with environment-fault injection: seeded sessions of public-API operation histories, reference models, call-boundary monitors, ddmin shrinking, JSON replay'}],
         'checks': checks,
         'not_applicable': na,
-        'notes': 'Every check also injects process-global caller state per operation (GLOBALS: numpy error state, print options, warnings filter, global RNG state) and runs 5-6 % of its sessions in a python -O interpreter (DESIGN 11.4 round 7, 11.6). Sensitivity: 260 independently seeded changes under /verif/seeded (reports/seeded_matrix.md, DESIGN 11.4). VERIF_SEED / --seed selects the batch; VERIF_BUDGET_S bounds the thorough tier (default 600 s); PYTENET_SRC overrides the source tree (sensitivity runs only). fix: commits in /repo: see known_findings.json.',
+        'notes': 'Every check also injects process-global caller state per operation (GLOBALS: numpy error state, print options, warnings filter, global RNG state) and runs 5-6 % of its sessions in a python -O interpreter (DESIGN 11.4 round 7, 11.6). Sensitivity: 280 independently seeded changes under /verif/seeded (reports/seeded_matrix.md, DESIGN 11.4). VERIF_SEED / --seed selects the batch; VERIF_BUDGET_S bounds the thorough tier (default 600 s); PYTENET_SRC overrides the source tree (sensitivity runs only). fix: commits in /repo: see known_findings.json.',
     }
     with open(os.path.join(os.path.dirname(os.path.dirname(os.path.abspath(__file__))), 'MANIFEST.json'), 'w') as f:
         json.dump(man, f, indent=1)
